@@ -24,7 +24,7 @@ def attach_cmd(u, call):
 
 def _circ_env_classes():
     # abstract classes of the attacher's answer, decided through the tests the code applies
-    out = ['none', 'marker']
+    out = ['none', 'marker', 'falsy']   # falsy: a non-circuit answer that is false in a boolean test (0, '', [], False)
     for i in (False, True):
         for k in (False, True):
             for b in (False, True):
@@ -65,7 +65,7 @@ def r09_1_2(run):
                 built = isinstance(cls, tuple) and cls[2]
                 return built if isinstance(a.ops[0], ast.Eq) else (not built)
             if dotted(a) == p:
-                return cls not in ('none',)
+                return cls not in ('none', 'falsy')
             return None
         return hook
     for cls in _circ_env_classes():
@@ -93,6 +93,9 @@ def r09_1_2(run):
                     ok = len(holes) == 2 and dotted(holes[0].node) == 'stream.id' and dotted(holes[1].node) == p + '.id'
                 run.ob('R09.2', isa, isa.node, 'a BUILT known circuit sends exactly ATTACHSTREAM <stream id> <circuit id>', ok, slot='good-attach',
                        message='a valid circuit answer sends %s' % [shape_text(s) for s in sent], path=desc)
+            elif cls == 'falsy':
+                run.ob('R09.4', isa, isa.node, 'a falsy non-circuit answer (0, "", [], False) is reported and sends nothing', not sent and pth.exit == 'raise', slot='invalid:falsy',
+                       message='an attacher answer such as 0 or "" %s: only None means "no preference"' % ('sends %s' % [shape_text(s_) for s_ in sent] if sent else 'is silently accepted'), path=desc)
             else:
                 cls_s = 'circuit=%s known=%s built=%s' % cls
                 run.ob('R09.4', isa, isa.node, 'invalid answer (%s) is reported and sends nothing' % cls_s, not sent and pth.exit == 'raise', slot='invalid:%s' % cls_s,
@@ -343,7 +346,15 @@ def r09_7(run):
     run.floor('R09.7', 'suspension points in the via-circuit coroutines', k, 5)
 
 
+def r09_9(run):
+    """the .exit test of _maybe_attach reads stream.target_host: every kind of new stream (NEW and NEWRESOLVE) has
+    learnt its target by the time the attachment decision is taken"""
+    from . import c07
+    c07.target_learning(run, 'R09.9', states=('NEW', 'NEWRESOLVE'))
+
+
 RULES = [
+    ('R09.9', 'the target the .exit test looks at is learnt from the NEW / NEWRESOLVE event itself (rule shared with R07.4)', r09_9),
     ('R09.8', 'once-only slots: singleton attacher recorded before the first suspension point; TorState slot emptied on removal, filled on install', r09_8),
     ('R09.7', 'no dropped Deferred in the via-circuit coroutines (attacher installed and circuit built before connecting; registration awaited)', r09_7),
     ('R09.1', 'path enumeration over the classes of attacher answers: the do-not-attach marker reaches no command', r09_1_2),
@@ -357,6 +368,7 @@ RULES = [
 from ..selftest import M  # noqa: E402
 FT, FC = 'txtorcon/torstate.py', 'txtorcon/circuit.py'
 MUTANTS = [
+    M('none-test-by-truthiness', FT, "            if circ is None:\n", "            if not circ:\n", ['R09.4']),
     M('when-built-not-awaited', FC, "        yield self._circuit.when_built()\n        connect_d", "        self._circuit.when_built()\n        connect_d", ['R09.7']),
     M('marker-like-none', FT, "            if circ is TorState.DO_NOT_ATTACH:\n                # neither attach it, nor tell Tor to attach it\n                return None\n\n            if circ is None:", "            if circ is None or circ is TorState.DO_NOT_ATTACH:", ['R09.1']),
     M('two-commands-built', FT, "                return self.protocol.queue_command(\n                    u\"ATTACHSTREAM {} {}\".format(stream.id, circ.id).encode(\"ascii\")\n                )", "                self.protocol.queue_command(\n                    u\"ATTACHSTREAM {} 0\".format(stream.id).encode(\"ascii\")\n                )\n                return self.protocol.queue_command(\n                    u\"ATTACHSTREAM {} {}\".format(stream.id, circ.id).encode(\"ascii\")\n                )", ['R09.2']),
